@@ -22,6 +22,8 @@ static TOPO_VERSION: std::sync::atomic::AtomicU64 = std::sync::atomic::AtomicU64
 /// Ring members that joined unreachable (connection attempts hang until the driver's
 /// connect timeout): each can keep the publishing worker waiting for its pool once.
 static BLACKHOLES: std::sync::atomic::AtomicU64 = std::sync::atomic::AtomicU64::new(0);
+/// How often the fetched-then-published oracle reached a verdict.
+static FETCH_JUDGED: std::sync::atomic::AtomicU64 = std::sync::atomic::AtomicU64::new(0);
 
 fn ring_now() -> BTreeSet<[u8; 16]> {
     let w = world::world();
@@ -80,6 +82,7 @@ async fn main(plan: Plan) -> Outcome {
     TOPO_VERSION.store(0, std::sync::atomic::Ordering::SeqCst);
     CHAOS_COUNT.store(0, std::sync::atomic::Ordering::SeqCst);
     BLACKHOLES.store(0, std::sync::atomic::Ordering::SeqCst);
+    FETCH_JUDGED.store(0, std::sync::atomic::Ordering::SeqCst);
     let cfg = SessionCfg {
         contact_nodes: vec![0],
         pool: PoolSize::PerHost(NonZeroUsize::new(1).unwrap()),
@@ -140,36 +143,66 @@ async fn main(plan: Plan) -> Outcome {
                         if with_event {
                             let ip = w.cluster.nodes[n].ip;
                             w.broadcast_event("TOPOLOGY_CHANGE", wire::body_event_topology("NEW_NODE", ip, 9042));
-                            // If nothing else happens for a while, the announced node must
-                            // show up in the published state without any explicit refresh.
+                        }
+                        {
+                            // "The published state reflects the latest fetched topology": once the
+                            // client has completely read system.peers in a fetch that STARTED after
+                            // this change (whenever the driver chooses to fetch - nothing is demanded
+                            // about that), and nothing else happens meanwhile, the published state
+                            // must contain the node.
                             let host = w.cluster.nodes[n].host_id;
                             let seen = CHAOS_COUNT.load(std::sync::atomic::Ordering::SeqCst);
-                            let has_cc = w.conns.iter().any(|c| !c.srv_closed && !c.client_closed && !c.cql.registered.is_empty());
-                            if has_cc {
-                                let session = session2.clone();
-                                let late = late2.clone();
-                                // Each unreachable member may hold the publication back by one
-                                // connect timeout (5 s).
-                                let wait = (6 + 6 * BLACKHOLES.load(std::sync::atomic::Ordering::SeqCst)) * SEC;
-                                tokio::spawn(async move {
-                                    world::sleep_ns(wait).await;
+                            let t_event = w.now();
+                            let session = session2.clone();
+                            let late = late2.clone();
+                            tokio::spawn(async move {
+                                // Wait (up to 20 s) for a complete fetch that started after the change.
+                                let mut fetched_at = None;
+                                for _ in 0..100 {
+                                    world::sleep_ns(200 * MS).await;
                                     if CHAOS_COUNT.load(std::sync::atomic::Ordering::SeqCst) != seen {
                                         return;
                                     }
-                                    let published = session
+                                    let w = world::world();
+                                    if let Some(f) = w.peers_fetches.iter().find(|f| f.0 >= t_event && f.1 <= w.now()) {
+                                        fetched_at = Some(f.1);
+                                        break;
+                                    }
+                                }
+                                let Some(fetched_at) = fetched_at else { return };
+                                // Publication follows the fetch. While a member is unreachable the
+                                // publishing worker waits, at every publication, for that member's
+                                // pool to finish its connection attempt in progress (connect timeout
+                                // 5 s plus the pool's growing back-off), and the update carrying this
+                                // fetch may be queued behind one such publication: the deadline is
+                                // 3 s without unreachable members, 40 s with.
+                                let wait = if BLACKHOLES.load(std::sync::atomic::Ordering::SeqCst) == 0 { 3 } else { 40 } * SEC;
+                                let mut published = false;
+                                let t_wait = world::now_ns();
+                                while world::now_ns() - t_wait < wait {
+                                    world::sleep_ns(500 * MS).await;
+                                    if CHAOS_COUNT.load(std::sync::atomic::Ordering::SeqCst) != seen {
+                                        return;
+                                    }
+                                    published = session
                                         .get_cluster_state()
                                         .get_nodes_info()
                                         .iter()
                                         .any(|n| *n.host_id.as_bytes() == host);
-                                    if !published {
-                                        late.lock().unwrap().push(format!(
-                                            "node {n} joined and NEW_NODE was sent at {} ms; {} quiet seconds later the published state still lacks it",
-                                            (world::now_ns() - wait) / MS,
-                                            wait / SEC
-                                        ));
+                                    if published {
+                                        break;
                                     }
-                                });
-                            }
+                                }
+                                FETCH_JUDGED.fetch_add(1, std::sync::atomic::Ordering::SeqCst);
+                                if !published {
+                                    late.lock().unwrap().push(format!(
+                                        "node {n} joined at {} ms (NEW_NODE sent: {with_event}); the client completely re-read system.peers by {} ms; {} quiet seconds later the published state still lacks the node",
+                                        t_event / MS,
+                                        fetched_at / MS,
+                                        wait / SEC
+                                    ));
+                                }
+                            });
                         }
                     }
                 }
@@ -309,7 +342,7 @@ async fn main(plan: Plan) -> Outcome {
         }
     }
     let _ = chaos.await;
-    world::sleep_ns(26 * SEC).await;
+    world::sleep_ns(70 * SEC).await;
     for m in late.lock().unwrap().iter() {
         out.violation("c19.event_not_reflected", m.clone());
     }
@@ -360,6 +393,7 @@ async fn main(plan: Plan) -> Outcome {
     }
     out.nontrivial = refreshes > 0;
     out.count("refresh_calls", refreshes);
+    out.count("fetched_then_published_judged", FETCH_JUDGED.load(std::sync::atomic::Ordering::SeqCst));
     out.sample = json!({"initial": plan.initial, "spare": plan.spare, "events": plan.events, "refreshers": plan.refreshers, "refresh_interval_s": plan.refresh_interval_s, "refresh_calls": refreshes});
     out
 }
